@@ -193,15 +193,17 @@ def check_stacking(case):
     st_ = _sts(models=list(members), method=case["method"])
     eff_method = case["method"] or "predict"
     datasets = [_data(d) for d in case["datasets"]]
+    all_learners = all(not hasattr(R.resolve(m_["model"]["cls"]), "transform") for m_ in case["members"])
     for i in case["history"]:
-        X, y, _ = datasets[i]
-        r = st_.fit(X, y)
+        X, y, sw_ = datasets[i]
+        kw = dict(sample_weight=sw_) if (case.get("use_weights") and sw_ is not None and all_learners) else {}
+        r = st_.fit(X, y, **kw)
         require(r is st_, "stacking:fit-not-self", "", facts)
         Z = np.vstack([X[:3], X[::4]])
         out = np.asarray(st_.transform(Z))
         cols = []
         for j, (mspec, m) in enumerate(zip(case["members"], st_.models)):
-            ref = clone(R.build(mspec["model"])).fit(X, y)
+            ref = clone(R.build(mspec["model"])).fit(X, y, **kw)
             if mspec["wrap"]:
                 meth = mspec["wrap_method"] or _default_method(ref)
                 if isinstance(meth, str) and meth != eff_method and hasattr(ref, eff_method):
@@ -226,7 +228,7 @@ def _stacking_cases(draw, tier="quick"):
         kind = draw(st.sampled_from(["reg", "reg", "tr"]))
         wrap = kind == "reg" and draw(st.booleans())
         members.append(dict(model=_models_for(kind, draw) if kind != "reg" else R.s_regressor(draw), wrap=wrap, wrap_method=draw(st.sampled_from([None, "predict"])) if wrap else None))
-    return dict(members=members, method=draw(st.sampled_from([None, "predict"])), datasets=[R.d_reg(draw), R.d_reg(draw)],
+    return dict(members=members, method=draw(st.sampled_from([None, "predict"])), datasets=[R.d_reg(draw), R.d_reg(draw)], use_weights=draw(st.booleans()),
                 history=[draw(st.integers(0, 1)) for _ in range(draw(st.integers(1, 3)))])
 
 
